@@ -9,7 +9,8 @@ Also runs every /verif/seeded/<id>/patch.diff (expected: exit 1 for meta.propert
 """
 import json, os, subprocess, sys, time, glob
 
-REPO = "/repo"
+REPO = os.environ.get("RBXSIM_REPO", "/repo")
+ROOT = os.environ.get("RBXSIM_ROOT", os.path.dirname(os.path.dirname(os.path.abspath(__file__))))
 
 # (name, property, expect_exit, file, old, new)
 EDITS = [
@@ -114,11 +115,38 @@ def restore():
 def run_check(prop, scale):
     env = dict(os.environ, RBXSIM_SCALE=str(scale))
     t = time.time()
-    r = subprocess.run(["/verif/check", prop, "quick"], capture_output=True, text=True, env=env)
+    r = subprocess.run([ROOT + "/check", prop, "quick"], capture_output=True, text=True, env=env)
     keys = [l.strip()[5:] for l in r.stdout.splitlines() if l.strip().startswith("key: ")]
     return r.returncode, keys, time.time() - t, r.stdout[-1500:] + r.stderr[-1500:]
 
+ALL_PROPS = ["C07", "C09", "C10", "C11", "C12", "C13", "C18"]
+
+def matrix():
+    """Every seeded change against every check: which checks catch which changes."""
+    scale = int(os.environ.get("SENS_SCALE", "50"))
+    rows = {}
+    for meta_path in sorted(glob.glob(ROOT + "/seeded/*/meta.json")):
+        d = os.path.dirname(meta_path)
+        name = os.path.basename(d)
+        a = sh(f"git -C {REPO} apply {d}/patch.diff")
+        if a.returncode != 0:
+            rows[name] = "PATCH-DOES-NOT-APPLY"; restore(); continue
+        row = {}
+        for prop in ALL_PROPS:
+            rc, keys, secs, tail = run_check(prop, scale)
+            row[prop] = dict(exit=rc, keys=keys[:3])
+            print(name, prop, rc, keys[:1], flush=True)
+        restore()
+        rows[name] = row
+        json.dump(rows, open(ROOT + "/sensitivity/MATRIX.json", "w"), indent=1)
+    restore()
+
 def main():
+    if sys.argv[1:2] == ["--matrix"]:
+        os.makedirs(ROOT + "/sensitivity", exist_ok=True)
+        if not repo_clean():
+            print("refusing: repo has uncommitted changes"); sys.exit(2)
+        matrix(); return
     want = sys.argv[1:]
     if not repo_clean():
         print("refusing: /repo has uncommitted changes"); sys.exit(2)
@@ -138,7 +166,7 @@ def main():
             ok = (rc == expect)
             results.append(dict(name=name, property=prop, expected_exit=expect, exit=rc, ok=ok, keys=keys[:6], seconds=round(secs, 1), tail=None if ok else tail))
             print(f"{'OK  ' if ok else 'MISS'} {name:58s} {prop} exit={rc} expected={expect} {secs:5.1f}s {keys[:2]}")
-        for meta_path in sorted(glob.glob("/verif/seeded/*/meta.json")):
+        for meta_path in sorted(glob.glob(ROOT + "/seeded/*/meta.json")):
             d = os.path.dirname(meta_path)
             name = os.path.basename(d)
             if want and not any(w in ("seeded/" + name) for w in want):
@@ -155,8 +183,8 @@ def main():
             print(f"{'OK  ' if ok else 'MISS'} seeded/{name:51s} {prop} exit={rc} expected=1 {secs:5.1f}s {keys[:2]}")
     finally:
         restore()
-    os.makedirs("/verif/sensitivity", exist_ok=True)
-    out = "/verif/sensitivity/RESULTS.json"
+    os.makedirs(ROOT + "/sensitivity", exist_ok=True)
+    out = ROOT + "/sensitivity/RESULTS.json"
     prev = {}
     if want and os.path.exists(out):
         prev = {r["name"]: r for r in json.load(open(out))}
@@ -164,6 +192,6 @@ def main():
         prev[r["name"]] = r
     json.dump(list(prev.values()) if want else results, open(out, "w"), indent=1)
     # leave the harness built against the restored tree
-    sh("/verif/check --build")
+    sh(ROOT + "/check --build")
 
 main()
